@@ -10,6 +10,30 @@ import (
 	"verifharness/fw"
 )
 
+// c17Fresh checks that Marshal hands out a buffer of its own: overwriting a returned buffer must not change what a
+// later Marshal of the same value returns (and the two results must not share storage).
+func c17Fresh(c *fw.Ctx, name string, marshal func() ([]byte, error)) bool {
+	a, err := marshal()
+	if err != nil || len(a) == 0 {
+		return true
+	}
+	want := append([]byte(nil), a...)
+	for i := range a {
+		a[i] ^= 0xFF
+	}
+	b, err := marshal()
+	c.Evals(1)
+	if err != nil || !bytes.Equal(b, want) {
+		c.Fail("C17/"+name+"/marshal-result-changes-after-caller-overwrote-an-earlier-result", fmt.Sprintf("Marshal returned %s, then (after the caller overwrote that buffer) %s for the same value", fw.Hex(want), fw.Hex(b)), fw.W("first", fw.Hex(want), "second", fw.Hex(b)))
+		return false
+	}
+	if _, shared := within(b, a); shared {
+		c.Fail("C17/"+name+"/marshal-results-share-storage", "two Marshal results share storage", fw.W("value", fw.Hex(want)))
+		return false
+	}
+	return true
+}
+
 func init() {
 	fw.Register(&fw.Prop{
 		ID:    "C17",
@@ -80,6 +104,9 @@ func c17Audio(c *fw.Ctx, _ int) {
 				continue
 			}
 			want := []byte{uint8(v<<7) | uint8(lvl)}
+			if !c17Fresh(c, "audiolevel", e.Marshal) {
+				return
+			}
 			if err != nil || !bytes.Equal(b, want) {
 				c.Fail("C17/audiolevel/marshal-layout", fmt.Sprintf("Marshal = %s (err %v), RFC 6464 layout is %s", fw.Hex(b), err, fw.Hex(want)), w)
 				return
@@ -129,6 +156,9 @@ func c17TCC(c *fw.Ctx, i int) {
 			c.Fail("C17/transportcc/marshal-layout", fmt.Sprintf("Marshal(%d) = %s (err %v), want %s", v, fw.Hex(b), err, fw.Hex(want)), fw.W("value", v))
 			return
 		}
+		if v%251 == 0 && !c17Fresh(c, "transportcc", e.Marshal) {
+			return
+		}
 		d := rtp.TransportCCExtension{TransportSequence: uint16(^v)}
 		in := append(append([]byte{}, want...), byte(v>>3))
 		if v&1 == 0 {
@@ -158,6 +188,9 @@ func c17Playout(c *fw.Ctx, i int) {
 		wire[0], wire[1], wire[2] = byte(v>>16), byte(v>>8), byte(v)
 		if err != nil || len(b) != 3 || b[0] != wire[0] || b[1] != wire[1] || b[2] != wire[2] {
 			c.Fail("C17/playoutdelay/marshal-layout", fmt.Sprintf("Marshal(min %d, max %d) = %s (err %v), want %s", mn, mx, fw.Hex(b), err, fw.Hex(wire[:3])), fw.W("min", mn, "max", mx))
+			return
+		}
+		if lo%4099 == 0 && !c17Fresh(c, "playoutdelay", e.Marshal) {
 			return
 		}
 		d := rtp.PlayoutDelayExtension{MinDelay: ^mn, MaxDelay: ^mx}
@@ -218,6 +251,9 @@ func c17AST(c *fw.Ctx, i int) {
 			c.Fail("C17/abssendtime/marshal-layout", fmt.Sprintf("Marshal(%#x) = %s (err %v), want %s", ts, fw.Hex(b), err, fw.Hex(wire[:3])), fw.W("timestamp", ts))
 			return
 		}
+		if lo%4099 == 0 && !c17Fresh(c, "abssendtime", e.Marshal) {
+			return
+		}
 		d := rtp.AbsSendTimeExtension{Timestamp: ^v}
 		wire[3], wire[4] = byte(lo), 0xEE
 		if err := d.Unmarshal(wire[:3+(lo&1)*2]); err != nil || d.Timestamp != v {
@@ -257,6 +293,9 @@ func c17ACT(c *fw.Ctx, i int) {
 		w := fw.W("timestamp", fmt.Sprintf("%#x", ts), "has_offset", hasOff, "offset", off, "encoded", fw.Hex(b))
 		if err != nil || !bytes.Equal(b, want) {
 			c.Fail("C17/abscapturetime/marshal-layout", fmt.Sprintf("Marshal = %s (err %v), want %s", fw.Hex(b), err, fw.Hex(want)), w)
+			return
+		}
+		if k%16 == 0 && !c17Fresh(c, "abscapturetime", e.Marshal) {
 			return
 		}
 		// decode into receivers with different histories; lengths size..size+2
